@@ -44,10 +44,21 @@ class Named:
 
 
 class Pos:
-    def __init__(self, arity="req", strict=None, default=None):
+    def __init__(self, arity="req", strict=None, default=None, guard=False):
         self.arity = arity  # 'req' | 'opt' | 'many' | 'some' | 'fallback'
         self.strict = strict  # None | 'strict' | 'non_strict'
         self.default = default
+        self.guard = guard
+
+
+class Group:
+    """sequential group of *required* named members under `optional` / `many`:
+    absent as a whole, or complete (k-th occurrence of every member forms the k-th value)"""
+
+    def __init__(self, members, arity):
+        self.members = members  # Named with kind 'arg' (arity req) or 'req_flag'
+        self.arity = arity  # 'opt' | 'many'
+        self.make = tuple
 
 
 class Cmd:
@@ -122,8 +133,10 @@ def items_of_words(words):
 class Env:
     """hooks supplied by the property: validity / guard / environment predicates"""
 
-    def __init__(self, valid, guard=None, env_set=None, env_val=None, intern=None):
+    def __init__(self, valid, guard=None, env_set=None, env_val=None, intern=None, value=None):
         self.valid = valid
+        self.value = value
+        self.lenient = None  # list => validity failures are recorded instead of failing
         self.guard = guard
         self.env_set = env_set
         self.env_val = env_val
@@ -144,14 +157,23 @@ def name_match(ex, env, f, it):
     return ex.branch(c, "spec-name")
 
 
-def conv(ex, env, f, vid):
-    """typed value of id `vid` for field f or Fail"""
+def conv(ex, env, f, vid, idx=None):
+    """typed value of id `vid` (taken from item `idx`) for field f or Fail"""
     if not ex.branch(env.valid(vid), "spec-valid"):
+        if env.lenient is not None:
+            env.lenient.append((idx, "conversion", vid))
+            return env.value(vid)
         raise Fail("invalid value")
-    if getattr(f, "guard", False):
-        if not ex.branch(env.guard(vid), "spec-guard"):
+    v = env.value(vid)
+    g = getattr(f, "guard", None)
+    if g:
+        # the corpus' guards and parse steps all mean "value >= 10"
+        if not ex.branch(z3.UGE(v, 10), "spec-guard"):
+            if env.lenient is not None:
+                env.lenient.append((idx, "parse" if g == "parse" else "guard", vid))
+                return v
             raise Fail("guard failed")
-    return Opaque("u32", (SymStr(vid),))
+    return v
 
 
 def eval_level(ex, env, level, items, lo, hi, enclosing=()):
@@ -176,6 +198,40 @@ def eval_level(ex, env, level, items, lo, hi, enclosing=()):
     vals = {}
     # -- named items --------------------------------------------------------------------------
     for fi, f in enumerate(level.fields):
+        if isinstance(f, Group):
+            per = []
+            for mbr in f.members:
+                got = []
+                for i in range(lo, named_hi):
+                    it = items[i]
+                    if claimed[i] or it.kind not in ("short", "long"):
+                        continue
+                    if name_match(ex, env, mbr, it):
+                        if mbr.kind == "req_flag":
+                            claimed[i] = True
+                            got.append(None)
+                            continue
+                        j = i + 1
+                        if j >= named_hi or items[j].kind not in ("word", "argword") or claimed[j]:
+                            raise Fail("argument without a value")
+                        claimed[i] = True
+                        claimed[j] = True
+                        got.append((j, items[j].val))
+                per.append(got)
+            k = len(per[0])
+            if any(len(g) != k for g in per):
+                raise Fail("incomplete group")
+            if f.arity == "opt" and k > 1:
+                raise Fail("group given twice")
+            tuples = []
+            for r in range(k):
+                tuples.append(f.make([mbr.present if mbr.kind == "req_flag" else conv(ex, env, mbr, per[mi][r][1], per[mi][r][0])
+                                      for mi, mbr in enumerate(f.members)]))
+            if f.arity == "opt":
+                vals[fi] = SOME(tuples[0]) if k == 1 else NONE
+            else:
+                vals[fi] = Seq(tuple(tuples))
+            continue
         if not isinstance(f, Named):
             continue
         occ = []
@@ -219,7 +275,7 @@ def eval_level(ex, env, level, items, lo, hi, enclosing=()):
                 raise Fail("argument without a value")
             claimed[i] = True
             claimed[j] = True
-            got.append(items[j].val)
+            got.append((j, items[j].val))
         a = f.arity
         if a in ("req", "opt", "fallback") and len(got) > 1:
             raise Fail("single-use argument given twice")
@@ -229,34 +285,34 @@ def eval_level(ex, env, level, items, lo, hi, enclosing=()):
                 from_env = env.env_val(env.intern(f.env))
         if a == "req":
             if got:
-                vals[fi] = conv(ex, env, f, got[0])
+                vals[fi] = conv(ex, env, f, got[0][1], got[0][0])
             elif from_env is not None:
                 vals[fi] = conv(ex, env, f, from_env)
             else:
                 raise Fail("required argument missing")
         elif a == "opt":
             if got:
-                vals[fi] = SOME(conv(ex, env, f, got[0]))
+                vals[fi] = SOME(conv(ex, env, f, got[0][1], got[0][0]))
             elif from_env is not None:
                 vals[fi] = SOME(conv(ex, env, f, from_env))
             else:
                 vals[fi] = NONE
         elif a == "fallback":
             if got:
-                vals[fi] = conv(ex, env, f, got[0])
+                vals[fi] = conv(ex, env, f, got[0][1], got[0][0])
             elif from_env is not None:
                 vals[fi] = conv(ex, env, f, from_env)
             else:
                 vals[fi] = f.default
         elif a in ("many", "some"):
-            vs = [conv(ex, env, f, g) for g in got]
+            vs = [conv(ex, env, f, g[1], g[0]) for g in got]
             if not got and from_env is not None:
                 vs = [conv(ex, env, f, from_env)]
             if a == "some" and not vs:
                 raise Fail("some: nothing given")
             vals[fi] = Seq(tuple(vs))
         elif a == "last":
-            vs = [conv(ex, env, f, g) for g in got]
+            vs = [conv(ex, env, f, g[1], g[0]) for g in got]
             if not got and from_env is not None:
                 vs = [conv(ex, env, f, from_env)]
             if not vs:
@@ -317,12 +373,12 @@ def eval_level(ex, env, level, items, lo, hi, enclosing=()):
             if not fits(stream[p]):
                 raise Fail("positional on the wrong side of --")
             claimed[stream[p]] = True
-            vals[fi] = conv(ex, env, f, items[stream[p]].val)
+            vals[fi] = conv(ex, env, f, items[stream[p]].val, stream[p])
             p += 1
         elif f.arity in ("opt", "fallback"):
             if p < len(stream) and fits(stream[p]):
                 claimed[stream[p]] = True
-                v = conv(ex, env, f, items[stream[p]].val)
+                v = conv(ex, env, f, items[stream[p]].val, stream[p])
                 vals[fi] = SOME(v) if f.arity == "opt" else v
                 p += 1
             elif p < len(stream) and f.strict == "strict":
@@ -334,7 +390,7 @@ def eval_level(ex, env, level, items, lo, hi, enclosing=()):
             vs = []
             while p < len(stream) and fits(stream[p]):
                 claimed[stream[p]] = True
-                vs.append(conv(ex, env, f, items[stream[p]].val))
+                vs.append(conv(ex, env, f, items[stream[p]].val, stream[p]))
                 p += 1
             if p < len(stream) and f.strict == "strict":
                 raise Fail("positional on the wrong side of --")
